@@ -31,10 +31,32 @@ impl<'buf, IO: Io> Connection<'_, 'buf, IO> {
         let mut buffer = [0u8; CONTROL_PACKET_LEN];
         let packet = MqttSerializer::encode(&mut buffer, &disconnect)?;
         self.session.runtime.require_packet_size(packet.len())?;
-        let result = match write_all(&mut self.io, packet).await {
-            Ok(()) => self.io.flush().await.map_err(Error::Transport),
-            Err(err) => Err(err),
-        };
+        // A cancelled operation may have left a packet half written: DISCONNECT must not start
+        // inside it.
+        self.finish_in_progress().await?;
+        let mut remaining = packet;
+        let mut result = Ok(());
+        while !remaining.is_empty() {
+            match self.io.write(remaining).await {
+                Ok(0) => {
+                    result = Err(Error::WriteZero);
+                    break;
+                }
+                Ok(written) => {
+                    // Once any byte of the DISCONNECT is on the wire nothing else may follow it,
+                    // even if this future is dropped before the rest is written.
+                    self.handle_disconnect();
+                    remaining = &remaining[written..];
+                }
+                Err(err) => {
+                    result = Err(Error::Transport(err));
+                    break;
+                }
+            }
+        }
+        if result.is_ok() {
+            result = self.io.flush().await.map_err(Error::Transport);
+        }
         // The transport is finished after a DISCONNECT regardless of the write outcome.
         self.handle_disconnect();
         result
